@@ -619,8 +619,13 @@ class iindex(dict):
             # of which rows have explicitly obtained an uncommon value.
             common_has_been_written = False
             common_count = numpy.full(numrows, numcols, dtype=fit_dtype(numcols))
-            for rowids in gathered.get(default, []):
-                common_count[rowids] -= 1
+            mentioned = set(precedence)
+            for coord, rowid_lists in gathered.items():
+                # Values not mentioned in precedence are never visited below,
+                # but their cells do not hold the common value either.
+                if coord == default or coord not in mentioned:
+                    for rowids in rowid_lists:
+                        common_count[rowids] -= 1
         for coord in reversed(precedence[:-1]):
             if coord == new_common:
                 # Rows which already have ALL values at a lower precedence
